@@ -193,6 +193,12 @@ def run(ctx):
         for i in range(n_chunks):
             for exc in ('ValueError', 'ImageFormatError'):
                 scenarios.append({n: {'fault': {i: exc}}})
+    # "any exception": classes a handler might be tempted to let through
+    for n in names[:2]:
+        for i in (0, 2):
+            for exc in ('MemoryError', 'RecursionError', 'StopIteration',
+                        'AssertionError', 'OSError', 'struct.error'):
+                scenarios.append({n: {'fault': {i: exc}}})
     # pairs of faults in different inspectors / chunks
     for (n1, i1), (n2, i2) in itertools.combinations(
             [(n, i) for n in names for i in range(n_chunks)], 2):
